@@ -229,6 +229,11 @@ func (h *Host) Slot() *int64 { h.rec.add("Slot"); return &h.I64 }
 // that existed when it started
 func (h *Host) ShrinkSL() { h.rec.add("ShrinkSL"); if len(h.SL) > 1 { h.SL = h.SL[:1] } }
 
+// BumpM / BumpI change the very target a compound assignment is about to update, from inside its right-hand side:
+// `t op= e` evaluates e first and then reads t (so the update by e is seen)
+func (h *Host) BumpM() int64 { h.rec.add("BumpM"); h.M["k"] = 10; return 3 }
+func (h *Host) BumpI() int64 { h.rec.add("BumpI"); h.I64 = 100; return 1 }
+
 func (h Host) Echo(x int64) int64 { h.rec.add("Echo", x); return x }
 func (s Sub) EchoN(k int32) int32 { s.rec.add("EchoN", k); return k }
 
@@ -264,11 +269,18 @@ func catalogue(rec *recorder) map[string]interface{} {
 			if rec.dc != nil {
 				rec.dc.Add("acc", &Counter{Id: 2, rec: rec, In: &Counter{Id: 22, rec: rec}})
 				rec.dc.Add("fn", func(x int64) int64 { rec.add("HostF", x); return x + 1 })
+				rec.dc.Add("k", int64(2))
 			}
 		},
 		"Boom":  func() { panic("catalogue Boom") },
 		// panics whose VALUE is an error: an explicit panic(err), and a runtime error raised inside the Go function
 		"BoomErr": func() { panic(fmt.Errorf("catalogue BoomErr")) },
+		// a failure that arrives LATE and is EXPENSIVE to turn into an error message: whoever waits for the children of a conc block
+		// must wait until the message has been recorded, not only until the child's function has returned
+		"BigBoom": func() {
+			time.Sleep(5 * time.Millisecond)
+			panic(strings.Repeat("x", 8<<20))
+		},
 		"BoomRT": func() int64 {
 			var a []int64
 			return a[3]
